@@ -160,7 +160,8 @@ func init() {
 				counts = append(append([]int{}, itemCounts...), 9, 17, 130, 140)
 			}
 			n := counts[t.Choose(simrt.StGen, len(counts), 0)]
-			dir := []string{"", "data/"}[t.Choose(simrt.StGen, 2, 0)]
+			// (members in the working directory, in a sub-directory, given by absolute path)
+			dir := []string{"", "data/", "/abs/in/"}[t.Choose(simrt.StGen, 3, 0)]
 			src := srcNode(w, "src0", n, dir)
 			if t.Choose(simrt.StGen, 2, 0) == 1 {
 				// arrival order different from the lexicographic order of the paths
@@ -170,10 +171,23 @@ func init() {
 				}
 			}
 			up := Edge{src, "out"}
-			if t.Choose(simrt.StGen, 2, 0) == 1 {
+			subFrom := []Edge{up}
+			unordered := false
+			switch t.Choose(simrt.StGen, 4, 0) {
+			case 1, 2:
 				up = Edge{oneToOne(w, "pre", up), "o0"}
+				subFrom = []Edge{up}
+			case 3:
+				// two members of the sub-stream stem from ONE upstream task: both
+				// out-ports of a two-output process feed the gathering component
+				// (their relative arrival order is not determined)
+				pi := addNode(w, Node{Name: "pre", Kind: KProc, Cores: 1,
+					Ins:  []InSpec{{Name: "a", From: []Edge{up}}},
+					Outs: []OutSpec{{Name: "o0", Pattern: "{i:a|basename}.pre.o0"}, {Name: "o1", Pattern: "{i:a|basename}.pre.o1"}}})
+				subFrom = []Edge{{pi, "o0"}, {pi, "o1"}}
+				unordered = n > 0
 			}
-			sub := addNode(w, Node{Name: "sub", Kind: KStreamToSub, Ins: []InSpec{{Name: "in", From: []Edge{up}}}, Outs: []OutSpec{{Name: "substream"}}})
+			sub := addNode(w, Node{Name: "sub", Kind: KStreamToSub, Ins: []InSpec{{Name: "in", From: subFrom}}, Outs: []OutSpec{{Name: "substream"}}})
 			// separators incl. multi-character ones that share characters with the end of the member paths
 			sep := []string{" ", ",", ":", "+", ".o0,", "txt+"}[t.Choose(simrt.StGen, 6, 0)]
 			joinIns := []InSpec{{Name: "x", From: []Edge{{sub, "substream"}}, Join: true, Sep: sep}}
@@ -233,9 +247,25 @@ func init() {
 				}
 			}
 			var got []string
-			for i, m := range o.Joined {
-				_ = i
-				got = append(got, cleanPath(o.Cwd+"/"+m))
+			for _, m := range o.Joined {
+				if strings.HasPrefix(m, "/") {
+					got = append(got, cleanPath(m))
+				} else {
+					got = append(got, cleanPath(o.Cwd+"/"+m))
+				}
+			}
+			if unordered {
+				// compare as multisets: sort both (port y, if any, stays ordered behind x)
+				nx := 0
+				for _, tk := range ex.Tasks {
+					if tk.Proc == "join" {
+						nx = len(tk.Joined["x"])
+					}
+				}
+				if nx <= len(got) && nx <= len(want) {
+					sort.Strings(got[:nx])
+					sort.Strings(want[:nx])
+				}
 			}
 			if strings.Join(got, " ") != strings.Join(want, " ") {
 				return Viol("join-members", "", "joined placeholder expanded to %v (resolved from %s: %v); the sub-stream was %v", o.Joined, o.Cwd, got, want)
@@ -260,11 +290,20 @@ func init() {
 					case "s/src/SRC/":
 						rel = strings.ReplaceAll(rel, "src", "SRC")
 					}
-					wantMod = append(wantMod, "../"+rel)
+					if !strings.HasPrefix(rel, "/") {
+						rel = "../" + rel // (a path that is still absolute after the modifier stays as it is)
+					}
+					wantMod = append(wantMod, rel)
 				}
 				gotNote := ""
 				if len(o.Notes) > 0 {
 					gotNote = o.Notes[0]
+				}
+				if unordered {
+					g := strings.Split(gotNote, sep)
+					sort.Strings(g)
+					gotNote = strings.Join(g, sep)
+					sort.Strings(wantMod)
 				}
 				if nx > 0 && gotNote != strings.Join(wantMod, sep) {
 					return Viol("join-modifier", "", "{i:x|join:%s|%s} expanded to %q; the sub-stream with the modifier applied to each member is %q", sep, joinMod, gotNote, strings.Join(wantMod, sep))
